@@ -100,4 +100,672 @@ theorem zero_spec (h : Heap) (at_ n : Nat)
     simp; omega
   · rfl
 
+/-! ### texts stored circularly; get_parts -/
+
+def Good (t : Bytes) : Prop := t ≠ [] ∧ ∀ b ∈ t, b ≠ 0
+
+/-- `t` followed by a NUL is stored at `off`, wrapping at `size` -/
+def Holds (h : Heap) (off : Nat) (t : Bytes) : Prop :=
+  ∀ k, k ≤ t.length → h.data[(off + k) % h.size]? = (t ++ [0])[k]?
+
+theorem takeWhile_text (t rest : Bytes) (ht : ∀ b ∈ t, b ≠ 0) :
+    (t ++ 0 :: rest).takeWhile (· ≠ 0) = t := by
+  rw [List.takeWhile_append_of_pos (by simpa using ht)]; simp
+
+theorem takeWhile_all (t : Bytes) (ht : ∀ b ∈ t, b ≠ 0) : t.takeWhile (· ≠ 0) = t := by
+  induction t with
+  | nil => rfl
+  | cons a t ih =>
+    have ha : a ≠ 0 := ht a (by simp)
+    rw [List.takeWhile_cons_of_pos (by simpa using ha), ih (fun b hb => ht b (by simp [hb]))]
+
+theorem slice_eq (l m : List UInt8) (a : Nat) (hm : ∀ k, k < m.length → l[a + k]? = m[k]?) :
+    (l.drop a).take m.length = m := by
+  apply List.ext_getElem?
+  intro k
+  rw [List.getElem?_take]
+  split
+  · rw [List.getElem?_drop]; exact hm k ‹_›
+  · rw [eq_comm, List.getElem?_eq_none_iff]; omega
+
+theorem getParts_of_holds (h : Heap) (off : Nat) (t : Bytes) (hlen : h.data.length = h.size)
+    (hoff : off < h.size) (hfit : t.length + 1 ≤ h.size) (hg : Good t) (hh : Holds h off t) :
+    getParts h off = some (if off + t.length < h.size then (t.length, false, 0)
+       else (h.size - off, true, t.length - (h.size - off))) ∧ textAt h off = some t := by
+  obtain ⟨hne, hnz⟩ := hg
+  have h0 : h.data.getD off 0 ≠ 0 := by
+    have := hh 0 (by omega)
+    rw [Nat.add_zero, Nat.mod_eq_of_lt hoff] at this
+    cases t with
+    | nil => exact absurd rfl hne
+    | cons a t' =>
+      simp at this
+      rw [List.getD_eq_getElem?_getD, this]
+      simpa using hnz a (by simp)
+  by_cases hc : off + t.length < h.size
+  · have hd : (h.data.drop off).take (t ++ [0]).length = t ++ [0] := by
+      apply slice_eq
+      intro k hk
+      simp at hk
+      have := hh k (by omega)
+      rwa [Nat.mod_eq_of_lt (by omega)] at this
+    have hd2 : h.data.drop off = t ++ 0 :: (h.data.drop off).drop (t ++ [0]).length := by
+      conv => lhs; rw [← List.take_append_drop (t ++ [0]).length (h.data.drop off), hd]
+      simp
+    have hl1 : strnlenAt h off (h.size - off) = t.length := by
+      unfold strnlenAt
+      rw [List.take_of_length_le (by simp [hlen]), hd2, takeWhile_text _ _ hnz]
+    have hgp : getParts h off = some (t.length, false, 0) := by
+      unfold getParts
+      rw [if_neg h0]
+      simp only [hl1]
+      rw [if_neg (by omega)]
+    refine ⟨by rw [hgp, if_pos hc], ?_⟩
+    unfold textAt
+    rw [hgp]
+    simp only
+    rw [hd2]
+    simp
+  · have hr : h.size - off ≤ t.length := by omega
+    have hd1 : h.data.drop off = t.take (h.size - off) := by
+      have := slice_eq h.data (t.take (h.size - off)) off (by
+        intro k hk
+        simp at hk
+        have := hh k (by omega)
+        rw [Nat.mod_eq_of_lt (by omega)] at this
+        rw [this, List.getElem?_take_of_lt (by omega), List.getElem?_append_left (by omega)])
+      rwa [List.take_of_length_le (by simp [hlen]; omega)] at this
+    have hd : (h.data.drop 0).take (t.drop (h.size - off) ++ [0]).length = t.drop (h.size - off) ++ [0] := by
+      apply slice_eq
+      intro k hk
+      simp at hk
+      have := hh (h.size - off + k) (by omega)
+      have e : (off + (h.size - off + k)) % h.size = k := by
+        rw [show off + (h.size - off + k) = k + h.size by omega, Nat.add_mod_right, Nat.mod_eq_of_lt (by omega)]
+      rw [e] at this
+      rw [Nat.zero_add, this, ← List.getElem?_drop, List.drop_append_of_le_length hr]
+    rw [List.drop_zero] at hd
+    have hd2 : h.data = t.drop (h.size - off) ++ 0 :: h.data.drop (t.drop (h.size - off) ++ [0]).length := by
+      conv => lhs; rw [← List.take_append_drop (t.drop (h.size - off) ++ [0]).length h.data, hd]
+      simp
+    have hnz1 : ∀ b ∈ t.take (h.size - off), b ≠ 0 := fun b hb => hnz b (List.mem_of_mem_take hb)
+    have hnz2 : ∀ b ∈ t.drop (h.size - off), b ≠ 0 := fun b hb => hnz b (List.mem_of_mem_drop hb)
+    have hl1 : strnlenAt h off (h.size - off) = h.size - off := by
+      unfold strnlenAt
+      rw [hd1, List.take_of_length_le (by simp; omega), takeWhile_all _ hnz1]
+      simp; omega
+    have hl2 : strnlenAt h 0 h.size = t.length - (h.size - off) := by
+      unfold strnlenAt
+      rw [List.drop_zero, List.take_of_length_le (by omega), hd2, takeWhile_text _ _ hnz2]
+      simp
+    have hgp : getParts h off = some (h.size - off, true, t.length - (h.size - off)) := by
+      unfold getParts
+      rw [if_neg h0]
+      simp only [hl1, hl2]
+      rw [if_pos (by omega)]
+    refine ⟨by rw [hgp, if_neg hc], ?_⟩
+    unfold textAt
+    rw [hgp]
+    simp only [if_true]
+    rw [hd1, List.take_of_length_le (by simp; omega)]
+    conv => lhs; rw [hd2]
+    simp
+
+/-! ### free -/
+
+theorem free_spec (h : Heap) (off : Nat) (t : Bytes) (rb : Bool) (hlen : h.data.length = h.size)
+    (hoff : off < h.size) (hfit : t.length + 1 ≤ h.size) (hg : Good t) (hh : Holds h off t) :
+    (free h (some off) rb).size = h.size ∧ (free h (some off) rb).oob = h.oob ∧
+    (free h (some off) rb).data.length = h.size ∧
+    (free h (some off) rb).count = h.count + (t.length + 1) ∧
+    (free h (some off) rb).wr =
+      (if h.count + (t.length + 1) = h.size then 0
+       else if rb then (if t.length + 1 > h.wr then h.wr + h.size - (t.length + 1) else h.wr - (t.length + 1))
+       else h.wr) ∧
+    ∀ k, k < h.size → (free h (some off) rb).data[(off + k) % h.size]? =
+      if k < t.length + 1 then some 0 else h.data[(off + k) % h.size]? := by
+  have hgp := (getParts_of_holds h off t hlen hoff hfit hg hh).1
+  by_cases hc : off + t.length < h.size
+  · rw [if_pos hc] at hgp
+    obtain ⟨z1, z2, z3, z4, z5, z6⟩ := zero_spec h off (t.length + 1) hlen (by omega)
+    simp only [free, hgp, Bool.false_eq_true, if_false]
+    generalize zero h off (t.length + 1) = z at z1 z2 z3 z4 z5 z6 ⊢
+    simp only [z1, z2, z3, Nat.add_zero]
+    have hp : ∀ k, k < h.size → z.data[(off + k) % h.size]? =
+        if k < t.length + 1 then some 0 else h.data[(off + k) % h.size]? := by
+      intro k hk
+      rw [z6, mod_wrap (show off + k < h.size + h.size by omega)]
+      by_cases h1 : off + k < h.size
+      · simp only [if_pos h1]
+        by_cases h2 : k < t.length + 1
+        · rw [if_pos h2, if_pos (by omega)]
+        · rw [if_neg h2, if_neg (by omega)]
+      · simp only [if_neg h1]
+        rw [if_neg (by omega), if_neg (by omega)]
+    by_cases he : h.count + (t.length + 1) = h.size
+    · simp only [if_pos he]
+      exact ⟨trivial, z4, z5, trivial, trivial, hp⟩
+    · simp only [if_neg he]
+      cases rb
+      · simp only [Bool.false_eq_true, if_false]
+        exact ⟨trivial, z4, z5, trivial, trivial, hp⟩
+      · simp only [if_true]
+        refine ⟨trivial, z4, z5, trivial, ?_, hp⟩
+        split <;> omega
+  · rw [if_neg hc] at hgp
+    obtain ⟨z1, z2, z3, z4, z5, z6⟩ := zero_spec h 0 (t.length - (h.size - off) + 1) hlen (by omega)
+    simp only [free, hgp, if_true]
+    generalize zero h 0 (t.length - (h.size - off) + 1) = z at z1 z2 z3 z4 z5 z6 ⊢
+    obtain ⟨y1, y2, y3, y4, y5, y6⟩ := zero_spec
+      { wr := z.wr, count := z.count + (t.length - (h.size - off) + 1), size := z.size, data := z.data, oob := z.oob }
+      off (h.size - off) (by simp only; omega) (by simp only; omega)
+    generalize zero { wr := z.wr, count := z.count + (t.length - (h.size - off) + 1), size := z.size, data := z.data, oob := z.oob }
+      off (h.size - off) = y at y1 y2 y3 y4 y5 y6 ⊢
+    simp only at y1 y2 y3 y4 y5 y6
+    simp only [y1, y2, y3, z1, z2, z3]
+    have hp : ∀ k, k < h.size → y.data[(off + k) % h.size]? =
+        if k < t.length + 1 then some 0 else h.data[(off + k) % h.size]? := by
+      intro k hk
+      rw [y6, z6, mod_wrap (show off + k < h.size + h.size by omega)]
+      by_cases h1 : off + k < h.size
+      · simp only [if_pos h1]
+        rw [if_pos (by omega), if_pos (by omega)]
+      · simp only [if_neg h1]
+        rw [if_neg (by omega)]
+        by_cases h2 : k < t.length + 1
+        · rw [if_pos h2, if_pos (by omega)]
+        · rw [if_neg h2, if_neg (by omega)]
+    have e1 : h.count + (t.length - (h.size - off) + 1) + (h.size - off) = h.count + (t.length + 1) := by omega
+    have e2 : h.size - off + (t.length - (h.size - off) + 1) = t.length + 1 := by omega
+    simp only [e1, e2]
+    by_cases he : h.count + (t.length + 1) = h.size
+    · simp only [if_pos he]
+      exact ⟨trivial, by rw [y4, z4], by rw [y5, z3], trivial, trivial, hp⟩
+    · simp only [if_neg he]
+      cases rb
+      · simp only [Bool.false_eq_true, if_false]
+        exact ⟨trivial, by rw [y4, z4], by rw [y5, z3], trivial, trivial, hp⟩
+      · simp only [if_true]
+        refine ⟨trivial, by rw [y4, z4], by rw [y5, z3], trivial, ?_, hp⟩
+        split <;> omega
+
+/-! ### strndup -/
+
+theorem set_same (l : List UInt8) (i : Nat) (b : UInt8) (hb : l[i]? = some b) : l.set i b = l := by
+  apply List.ext_getElem?
+  intro j
+  rw [List.getElem?_set]
+  split
+  · subst_vars; split
+    · exact hb.symm
+    · rw [eq_comm, List.getElem?_eq_none_iff]; omega
+  · rfl
+
+theorem store_same (h : Heap) (i : Nat) (b : UInt8) (hi : i < h.size) (hb : h.data[i]? = some b) :
+    store h i b = h := by
+  rw [store_lt h i b hi, set_same _ _ _ hb]
+
+theorem strndup_ok (h : Heap) (s : Bytes) (n : Nat) (hlen : h.data.length = h.size) (hwr : h.wr < h.size)
+    (h0 : h.data.getD h.wr 0 = 0) (hs : cstr s ≠ [])
+    (hfit : ((cstr s).take n).length + 1 ≤ h.count) (hcnt : h.count ≤ h.size) :
+    ∃ h', strndup h s n = (h', some h.wr) ∧ h'.size = h.size ∧ h'.oob = h.oob ∧ h'.data.length = h.size ∧
+      h'.count = h.count - (((cstr s).take n).length + 1) ∧
+      h'.wr = (h.wr + (((cstr s).take n).length + 1)) % h.size ∧
+      ∀ k, k < h.size → h'.data[(h.wr + k) % h.size]? =
+        if k < ((cstr s).take n).length + 1 then ((cstr s).take n ++ [0])[k]? else h.data[(h.wr + k) % h.size]? := by
+  generalize ht : (cstr s).take n = t at hfit ⊢
+  have e1 : ¬ h.size = 0 := by omega
+  have e2 : ¬ (h.data.getD h.wr 0 ≠ 0) := fun hc => hc h0
+  have e3 : ¬ ((cstr s).isEmpty = true) := by simpa using hs
+  have e4 : ¬ (t.length + 1 > h.count) := by omega
+  have hlast : (t ++ [0])[t.length]? = some 0 := by simp
+  by_cases hw : t.length + 1 ≥ h.size - h.wr
+  · simp only [strndup, if_neg e1, if_neg e2, if_neg e3, ht, if_neg e4, if_pos hw]
+    obtain ⟨a1, a2, a3, a4, a5, a6⟩ := storeAll_spec (List.take (h.size - h.wr) (t ++ [0])) h h.wr hlen
+      (by simp; omega)
+    generalize storeAll h h.wr (List.take (h.size - h.wr) (t ++ [0])) = a at a1 a2 a3 a4 a5 a6 ⊢
+    obtain ⟨b1, b2, b3, b4, b5, b6⟩ := storeAll_spec (List.drop (h.size - h.wr) (t ++ [0]))
+      { wr := 0, count := a.count - (h.size - h.wr), size := a.size, data := a.data, oob := a.oob } 0
+      (by simp only; omega) (by simp; omega)
+    generalize storeAll { wr := 0, count := a.count - (h.size - h.wr), size := a.size, data := a.data, oob := a.oob } 0
+      (List.drop (h.size - h.wr) (t ++ [0])) = b at b1 b2 b3 b4 b5 b6 ⊢
+    simp only [List.length_take, List.length_drop, List.length_append, List.length_singleton,
+      Nat.zero_add, Nat.zero_le, true_and, Nat.sub_zero] at a6 b1 b2 b3 b4 b5 b6
+    simp only [b1, b2, b3, b4, a2, a3, a4, Nat.zero_add]
+    have hst : (if t.length + 1 - (h.size - h.wr) > 0 then
+          store { wr := t.length + 1 - (h.size - h.wr), count := h.count - (h.size - h.wr) - (t.length + 1 - (h.size - h.wr)), size := h.size, data := b.data, oob := h.oob } (t.length + 1 - (h.size - h.wr) - 1) 0
+        else
+          store { wr := t.length + 1 - (h.size - h.wr), count := h.count - (h.size - h.wr) - (t.length + 1 - (h.size - h.wr)), size := h.size, data := b.data, oob := h.oob } (h.size - 1) 0) =
+        { wr := t.length + 1 - (h.size - h.wr), count := h.count - (h.size - h.wr) - (t.length + 1 - (h.size - h.wr)), size := h.size, data := b.data, oob := h.oob } := by
+      split
+      · apply store_same
+        · simp only; omega
+        · simp only
+          rw [b6, if_pos (by omega), List.getElem?_drop, ← hlast]
+          congr 1; omega
+      · apply store_same
+        · simp only; omega
+        · simp only
+          rw [b6, if_neg (by omega), a6, if_pos (by omega), List.getElem?_take, if_pos (by omega), ← hlast]
+          congr 1; omega
+    rw [hst]
+    refine ⟨_, rfl, rfl, rfl, by simp only; omega, by simp only; omega, ?_, ?_⟩
+    · simp only
+      rw [mod_wrap (by omega), if_neg (by omega)]; omega
+    · intro k hk
+      simp only
+      rw [mod_wrap (show h.wr + k < h.size + h.size by omega)]
+      by_cases h1 : h.wr + k < h.size
+      · simp only [if_pos h1]
+        rw [b6, if_neg (by omega), a6, if_pos (by omega), List.getElem?_take, if_pos (by omega), if_pos (by omega)]
+        congr 1; omega
+      · simp only [if_neg h1]
+        rw [b6]
+        by_cases h2 : k < t.length + 1
+        · rw [if_pos (by omega), if_pos h2, List.getElem?_drop]
+          congr 1; omega
+        · rw [if_neg (by omega), if_neg h2, a6, if_neg (by omega)]
+  · simp only [strndup, if_neg e1, if_neg e2, if_neg e3, ht, if_neg e4, if_neg hw]
+    obtain ⟨a1, a2, a3, a4, a5, a6⟩ := storeAll_spec (t ++ [0]) h h.wr hlen (by simp; omega)
+    generalize storeAll h h.wr (t ++ [0]) = a at a1 a2 a3 a4 a5 a6 ⊢
+    simp only [List.length_append, List.length_singleton] at a6
+    simp only [a1, a2, a3, a4]
+    rw [if_pos (by omega)]
+    rw [store_same _ _ _ (by simp only; omega) (by
+      simp only
+      rw [a6, if_pos (by omega), ← hlast]
+      congr 1; omega)]
+    refine ⟨_, rfl, rfl, rfl, a5, rfl, ?_, ?_⟩
+    · simp only
+      rw [Nat.mod_eq_of_lt (by omega)]
+    · intro k hk
+      simp only
+      rw [mod_wrap (show h.wr + k < h.size + h.size by omega)]
+      by_cases h1 : h.wr + k < h.size
+      · simp only [if_pos h1]
+        rw [a6]
+        by_cases h2 : k < t.length + 1
+        · rw [if_pos (by omega), if_pos h2]
+          congr 1; omega
+        · rw [if_neg (by omega), if_neg h2]
+      · simp only [if_neg h1]
+        rw [a6, if_neg (by omega), if_neg (by omega)]
+
+theorem strndup_cases (h : Heap) (s : Bytes) (n : Nat) :
+    strndup h s n = (h, none) ∨
+    (h.size ≠ 0 ∧ h.data.getD h.wr 0 = 0 ∧ cstr s ≠ [] ∧ ((cstr s).take n).length + 1 ≤ h.count) := by
+  by_cases e1 : h.size = 0
+  · left; simp [strndup, e1]
+  by_cases e2 : h.data.getD h.wr 0 ≠ 0
+  · left; simp only [strndup, if_neg e1, if_pos e2]
+  by_cases e3 : (cstr s).isEmpty = true
+  · left; simp only [strndup, if_neg e1, if_neg e2, if_pos e3]
+  by_cases e4 : ((cstr s).take n).length + 1 > h.count
+  · left; simp only [strndup, if_neg e1, if_neg e2, if_neg e3, if_pos e4]
+  · right
+    refine ⟨e1, ?_, ?_, by omega⟩
+    · exact Classical.not_not.mp e2
+    · simpa using e3
+
+/-! ### heap invariant -/
+
+/-- the stored form of the live texts, oldest first -/
+def enc : List Bytes → Bytes
+  | [] => []
+  | t :: ts => t ++ 0 :: enc ts
+
+theorem enc_append (a b : List Bytes) : enc (a ++ b) = enc a ++ enc b := by
+  induction a with
+  | nil => rfl
+  | cons t a ih => simp [enc, ih]
+
+theorem enc_single (t : Bytes) : enc [t] = t ++ [0] := rfl
+
+/-- `st` is the offset of the oldest live text; the live texts follow each other from there, then
+`count` free (zero) bytes up to `st` again -/
+structure HInv (h : Heap) (st : Nat) (ts : List Bytes) : Prop where
+  len : h.data.length = h.size
+  oob : h.oob = false
+  st_lt : st < h.size ∨ (h.size = 0 ∧ st = 0)
+  wr_eq : h.wr = (st + (enc ts).length) % h.size
+  cnt : h.count + (enc ts).length = h.size
+  good : ∀ t ∈ ts, Good t
+  dat : ∀ i, i < h.size → h.data[(st + i) % h.size]? = (enc ts ++ List.replicate h.count 0)[i]?
+  empty : h.count = h.size → h.wr = 0
+
+theorem hinv_init (n : Nat) : HInv (Heap.init n) 0 [] := by
+  refine ⟨by simp [Heap.init], rfl, ?_, by simp [Heap.init, enc], by simp [Heap.init, enc], by simp, ?_, fun _ => rfl⟩
+  · show 0 < n ∨ (n = 0 ∧ 0 = 0); omega
+  · intro i hi
+    simp only [Heap.init] at hi ⊢
+    simp [enc, Nat.mod_eq_of_lt hi]
+
+theorem circ_idx (st E k i n : Nat) (h : E + k = i ∨ E + k = i + n) :
+    ((st + E) % n + k) % n = (st + i) % n := by
+  rw [Nat.mod_add_mod]
+  rcases h with h | h
+  · rw [Nat.add_assoc, h]
+  · rw [Nat.add_assoc, h, ← Nat.add_assoc, Nat.add_mod_right]
+
+theorem hinv_wr_lt {h : Heap} {st : Nat} {ts : List Bytes} (hi : HInv h st ts) (hs : h.size ≠ 0) : h.wr < h.size := by
+  rw [hi.wr_eq]; exact Nat.mod_lt _ (by omega)
+
+theorem hinv_holds {h : Heap} {st : Nat} {ts1 ts2 : List Bytes} {t : Bytes} (hi : HInv h st (ts1 ++ t :: ts2)) :
+    Holds h ((st + (enc ts1).length) % h.size) t ∧ (st + (enc ts1).length) % h.size < h.size ∧
+    t.length + 1 ≤ h.size ∧ Good t := by
+  have hc := hi.cnt
+  rw [enc_append] at hc
+  simp only [enc, List.length_append, List.length_cons] at hc
+  refine ⟨?_, Nat.mod_lt _ (by omega), by omega, hi.good t (by simp)⟩
+  intro k hk
+  rw [circ_idx st _ k ((enc ts1).length + k) _ (Or.inl rfl), hi.dat _ (by omega), enc_append]
+  simp only [enc]
+  rw [List.append_assoc, List.getElem?_append_right (by omega)]
+  rw [show (t ++ 0 :: enc ts2) ++ List.replicate h.count 0 = (t ++ [0]) ++ (enc ts2 ++ List.replicate h.count 0) by simp]
+  rw [List.getElem?_append_left (by simp; omega)]
+  congr 1; omega
+
+theorem good_take (s : Bytes) (n : Nat) (hn : 1 ≤ n) (hs : cstr s ≠ []) : Good ((cstr s).take n) := by
+  constructor
+  · intro h
+    cases hc : cstr s with
+    | nil => exact hs hc
+    | cons a l =>
+      rw [hc] at h
+      cases n with
+      | zero => omega
+      | succ n => simp at h
+  · intro b hb
+    have h1 := List.mem_of_mem_take hb
+    unfold cstr at h1
+    have := List.all_eq_true.mp (List.all_takeWhile (p := (· ≠ 0)) (l := s)) b h1
+    simpa using this
+
+theorem get2 (A : Bytes) (c i : Nat) :
+    (A ++ List.replicate c 0)[i]? =
+      if i < A.length then A[i]? else if i < A.length + c then some 0 else none := by
+  rw [List.getElem?_append]
+  split
+  · rfl
+  · rw [List.getElem?_replicate]
+    split <;> split <;> first | rfl | omega
+
+theorem get3 (A B : Bytes) (c i : Nat) :
+    (A ++ (B ++ List.replicate c 0))[i]? =
+      if i < A.length then A[i]? else if i < A.length + B.length then B[i - A.length]?
+      else if i < A.length + B.length + c then some 0 else none := by
+  rw [List.getElem?_append]
+  by_cases h1 : i < A.length
+  · simp only [if_pos h1]
+  · simp only [if_neg h1]
+    rw [get2]
+    by_cases h2 : i - A.length < B.length
+    · rw [if_pos h2, if_pos (show i < A.length + B.length by omega)]
+    · rw [if_neg h2, if_neg (show ¬ i < A.length + B.length by omega)]
+      by_cases h3 : i - A.length < B.length + c
+      · rw [if_pos h3, if_pos (show i < A.length + B.length + c by omega)]
+      · rw [if_neg h3, if_neg (show ¬ i < A.length + B.length + c by omega)]
+
+theorem hinv_strndup {h : Heap} {st : Nat} {ts : List Bytes} (hi : HInv h st ts) (s : Bytes) (n : Nat)
+    (hn : 1 ≤ n) :
+    strndup h s n = (h, none) ∨
+    ∃ h', strndup h s n = (h', some ((st + (enc ts).length) % h.size)) ∧ cstr s ≠ [] ∧ h'.size = h.size ∧
+      HInv h' st (ts ++ [(cstr s).take n]) := by
+  rcases strndup_cases h s n with hnone | ⟨e1, e2, e3, e4⟩
+  · exact Or.inl hnone
+  · right
+    have hwr := hinv_wr_lt hi e1
+    have hcnt := hi.cnt
+    obtain ⟨h', heq, s1, s2, s3, s4, s5, s6⟩ := strndup_ok h s n hi.len hwr e2 e3 e4 (by omega)
+    generalize ht : (cstr s).take n = t at *
+    have hgood : Good t := ht ▸ good_take s n hn e3
+    refine ⟨h', by rw [heq, hi.wr_eq], e3, s1, ?_⟩
+    have hE : (enc (ts ++ [t])).length = (enc ts).length + (t.length + 1) := by
+      rw [enc_append, enc_single]; simp
+    refine ⟨by rw [s3, s1], by rw [s2, hi.oob], by rw [s1]; exact hi.st_lt, ?_, ?_, ?_, ?_, ?_⟩
+    · rw [s5, s1, hE, hi.wr_eq, Nat.mod_add_mod, Nat.add_assoc]
+    · rw [s4, s1, hE]; omega
+    · intro t' ht'
+      rcases List.mem_append.mp ht' with h1 | h1
+      · exact hi.good t' h1
+      · simp at h1; subst h1; exact hgood
+    · intro i hi'
+      rw [s1] at hi' ⊢
+      rw [enc_append, enc_single, s4, List.append_assoc, get3]
+      have hd := hi.dat i hi'
+      rw [get2] at hd
+      simp only [List.length_append, List.length_singleton]
+      by_cases h1 : i < (enc ts).length
+      · have e : (h.wr + (i + h.size - (enc ts).length)) % h.size = (st + i) % h.size := by
+          rw [hi.wr_eq]; exact circ_idx _ _ _ _ _ (Or.inr (by omega))
+        have := s6 (i + h.size - (enc ts).length) (by omega)
+        rw [e, if_neg (by omega)] at this
+        rw [this, hd, if_pos h1, if_pos h1]
+      · have e : (h.wr + (i - (enc ts).length)) % h.size = (st + i) % h.size := by
+          rw [hi.wr_eq]; exact circ_idx _ _ _ _ _ (Or.inl (by omega))
+        have := s6 (i - (enc ts).length) (by omega)
+        rw [e] at this
+        rw [this, if_neg h1]
+        by_cases h2 : i - (enc ts).length < t.length + 1
+        · rw [if_pos h2, if_pos (by omega)]
+        · rw [if_neg h2, if_neg (by omega), hd, if_neg h1, if_pos (by omega), if_pos (by omega)]
+    · intro hc
+      rw [s4, s1] at hc; omega
+
+theorem zeros_anchor (h : Heap) (a : Nat) (ha : a < h.size)
+    (hz : ∀ i, i < h.size → h.data[(a + i) % h.size]? = some 0) :
+    ∀ j, j < h.size → h.data[j]? = some 0 := by
+  intro j hj
+  by_cases h1 : a ≤ j
+  · have := hz (j - a) (by omega)
+    rwa [show a + (j - a) = j by omega, Nat.mod_eq_of_lt hj] at this
+  · have := hz (j + h.size - a) (by omega)
+    rwa [show a + (j + h.size - a) = j + h.size by omega, Nat.add_mod_right, Nat.mod_eq_of_lt hj] at this
+
+theorem enc_length_pos {ts : List Bytes} (h : ts ≠ []) : 1 ≤ (enc ts).length := by
+  cases ts with
+  | nil => exact absurd rfl h
+  | cons t ts => simp [enc]; omega
+
+/-- the heap is completely free: every anchor is as good as 0 -/
+theorem hinv_empty (h : Heap) (a : Nat) (hlen : h.data.length = h.size) (hoob : h.oob = false)
+    (ha : a < h.size) (hwr : h.wr = 0) (hcnt : h.count = h.size)
+    (hz : ∀ i, i < h.size → h.data[(a + i) % h.size]? = some 0) : HInv h 0 [] := by
+  refine ⟨hlen, hoob, Or.inl (by omega), by simp [enc, hwr], by simp [enc, hcnt], by simp, ?_, fun _ => hwr⟩
+  intro i hi
+  rw [Nat.zero_add, Nat.mod_eq_of_lt hi, zeros_anchor h a ha hz i hi, hcnt]
+  simp [enc, hi]
+
+theorem hinv_free_oldest {h : Heap} {st : Nat} {t : Bytes} {ts : List Bytes} (hi : HInv h st (t :: ts)) :
+    ∃ st', HInv (free h (some st) false) st' ts ∧ (free h (some st) false).size = h.size ∧
+      (ts = [] ∨ st' = (st + t.length + 1) % h.size) := by
+  obtain ⟨hh, hoff, hfit, hg⟩ := hinv_holds (ts1 := []) hi
+  have hst : st < h.size := by have := hi.st_lt; omega
+  simp only [enc, List.length_nil, Nat.add_zero, Nat.mod_eq_of_lt hst] at hh
+  obtain ⟨f1, f2, f3, f4, f5, f6⟩ := free_spec h st t false hi.len hst hfit hg hh
+  have hcnt := hi.cnt
+  simp only [enc, List.length_append, List.length_cons] at hcnt
+  have hL : ∀ i, (enc (t :: ts) ++ List.replicate h.count 0)[i]? =
+      if i < t.length + 1 then (t ++ [0])[i]? else if i < t.length + 1 + (enc ts).length then (enc ts)[i - (t.length + 1)]?
+      else if i < t.length + 1 + (enc ts).length + h.count then some 0 else none := by
+    intro i
+    have := get3 (t ++ [0]) (enc ts) h.count i
+    simp only [List.length_append, List.length_singleton] at this
+    rw [← this]
+    simp [enc]
+  generalize free h (some st) false = h' at *
+  by_cases hts : ts = []
+  · subst hts
+    have h0 : (enc ([] : List Bytes)).length = 0 := rfl
+    refine ⟨0, ?_, f1, Or.inl rfl⟩
+    refine hinv_empty h' st (by rw [f3, f1]) (by rw [f2, hi.oob]) (by rw [f1]; exact hst)
+      (by rw [f5, if_pos (by omega)]) (by rw [f4, f1]; omega) ?_
+    intro i hi'
+    rw [f1] at hi' ⊢
+    rw [f6 i hi']
+    split
+    · rfl
+    · rw [hi.dat i hi', hL, if_neg (by omega), if_neg (by omega), if_pos (by omega)]
+  · have hE := enc_length_pos hts
+    refine ⟨(st + t.length + 1) % h.size, ?_, f1, Or.inr rfl⟩
+    refine ⟨by rw [f3, f1], by rw [f2, hi.oob], by rw [f1]; exact Or.inl (Nat.mod_lt _ (by omega)), ?_,
+      by rw [f4, f1]; omega, fun t' ht' => hi.good t' (by simp [ht']), ?_, ?_⟩
+    · rw [f5, if_neg (by omega), f1, hi.wr_eq, Nat.mod_add_mod]
+      simp only [enc, List.length_append, List.length_cons, Bool.false_eq_true, if_false]
+      congr 1; omega
+    · intro i hi'
+      rw [f1] at hi' ⊢
+      rw [f4, get2]
+      by_cases h1 : t.length + 1 + i < h.size
+      · rw [Nat.add_assoc st, circ_idx st (t.length + 1) i (t.length + 1 + i) _ (Or.inl rfl), f6 _ (by omega),
+          if_neg (by omega), hi.dat _ (by omega), hL, if_neg (by omega)]
+        by_cases h2 : i < (enc ts).length
+        · rw [if_pos (by omega), if_pos h2]; congr 1; omega
+        · rw [if_neg (by omega), if_neg h2, if_pos (by omega), if_pos (by omega)]
+      · rw [Nat.add_assoc st, circ_idx st (t.length + 1) i (t.length + 1 + i - h.size) _ (Or.inr (by omega)),
+          f6 _ (by omega), if_pos (by omega), if_neg (by omega), if_pos (by omega)]
+    · intro hc
+      rw [f4, f1] at hc; omega
+
+theorem hinv_free_newest {h : Heap} {st : Nat} {t : Bytes} {ts : List Bytes} (hi : HInv h st (ts ++ [t])) :
+    ∃ st', HInv (free h (some ((st + (enc ts).length) % h.size)) true) st' ts ∧
+      (free h (some ((st + (enc ts).length) % h.size)) true).size = h.size ∧ (ts = [] ∨ st' = st) := by
+  obtain ⟨hh, hoff, hfit, hg⟩ := hinv_holds (ts2 := []) hi
+  have hst : st < h.size := by have := hi.st_lt; omega
+  obtain ⟨f1, f2, f3, f4, f5, f6⟩ := free_spec h _ t true hi.len hoff hfit hg hh
+  have hcnt := hi.cnt
+  rw [enc_append, enc_single] at hcnt
+  simp only [List.length_append, List.length_singleton] at hcnt
+  have hL : ∀ i, (enc (ts ++ [t]) ++ List.replicate h.count 0)[i]? =
+      if i < (enc ts).length then (enc ts)[i]? else if i < (enc ts).length + (t.length + 1) then (t ++ [0])[i - (enc ts).length]?
+      else if i < (enc ts).length + (t.length + 1) + h.count then some 0 else none := by
+    intro i
+    have := get3 (enc ts) (t ++ [0]) h.count i
+    simp only [List.length_append, List.length_singleton] at this
+    rw [← this, enc_append, enc_single, List.append_assoc]
+  have hwr := hi.wr_eq
+  rw [enc_append, enc_single] at hwr
+  simp only [List.length_append, List.length_singleton] at hwr
+  generalize free h (some ((st + (enc ts).length) % h.size)) true = h' at *
+  have hp : ∀ i, i < h.size → h'.data[(st + i) % h.size]? =
+      if i < (enc ts).length then (enc ts)[i]? else some 0 := by
+    intro i hi'
+    by_cases h1 : i < (enc ts).length
+    · have := f6 (i + h.size - (enc ts).length) (by omega)
+      rw [circ_idx st _ _ i _ (Or.inr (by omega)), if_neg (by omega), hi.dat i hi', hL, if_pos h1] at this
+      rw [this, if_pos h1]
+    · have := f6 (i - (enc ts).length) (by omega)
+      rw [circ_idx st _ _ i _ (Or.inl (by omega)), hi.dat i hi', hL, if_neg h1] at this
+      rw [this, if_neg h1]
+      by_cases h2 : i - (enc ts).length < t.length + 1
+      · rw [if_pos h2]
+      · rw [if_neg h2, if_neg (by omega), if_pos (by omega)]
+  by_cases hts : ts = []
+  · subst hts
+    have h0 : (enc ([] : List Bytes)).length = 0 := rfl
+    refine ⟨0, ?_, f1, Or.inl rfl⟩
+    refine hinv_empty h' st (by rw [f3, f1]) (by rw [f2, hi.oob]) (by rw [f1]; exact hst)
+      (by rw [f5, if_pos (by omega)]) (by rw [f4, f1]; omega) ?_
+    intro i hi'
+    rw [f1] at hi' ⊢
+    rw [hp i hi', if_neg (by omega)]
+  · have hE := enc_length_pos hts
+    refine ⟨st, ?_, f1, Or.inr rfl⟩
+    refine ⟨by rw [f3, f1], by rw [f2, hi.oob], by rw [f1]; exact Or.inl hst, ?_,
+      by rw [f4, f1]; omega, fun t' ht' => hi.good t' (by simp [ht']), ?_, ?_⟩
+    · rw [f5, if_neg (by omega), f1, if_pos rfl, hwr,
+        mod_wrap (show st + ((enc ts).length + (t.length + 1)) < h.size + h.size by omega),
+        mod_wrap (show st + (enc ts).length < h.size + h.size by omega)]
+      split <;> split <;> split <;> omega
+    · intro i hi'
+      rw [f1] at hi' ⊢
+      rw [hp i hi', f4, get2]
+      by_cases h1 : i < (enc ts).length
+      · rw [if_pos h1, if_pos h1]
+      · rw [if_neg h1, if_neg h1, if_pos (by omega)]
+    · intro hc
+      rw [f4, f1] at hc; omega
+
+/-! ### ghost queue: what each queue entry stores -/
+
+/-- (code, stored text or nothing) per queue entry, oldest first -/
+abbrev GQ := List (Int × Option Bytes)
+
+def texts (g : GQ) : List Bytes := g.filterMap (·.2)
+
+theorem texts_append (a b : GQ) : texts (a ++ b) = texts a ++ texts b := by simp [texts]
+
+/-- the queue entries that `g` denotes when the oldest text starts at offset `p` -/
+def layout (size : Nat) : Nat → GQ → List Entry
+  | _, [] => []
+  | p, (c, none) :: g => ⟨c, none⟩ :: layout size p g
+  | p, (c, some t) :: g => ⟨c, some (p % size)⟩ :: layout size (p + t.length + 1) g
+
+theorem layout_length (n p : Nat) (g : GQ) : (layout n p g).length = g.length := by
+  induction g generalizing p with
+  | nil => rfl
+  | cons a g ih =>
+    obtain ⟨c, o⟩ := a
+    cases o <;> simp [layout, ih]
+
+theorem layout_congr (n : Nat) (g : GQ) (p p' : Nat) (h : p % n = p' % n) : layout n p g = layout n p' g := by
+  induction g generalizing p p' with
+  | nil => rfl
+  | cons a g ih =>
+    obtain ⟨c, o⟩ := a
+    cases o with
+    | none => simp only [layout]; rw [ih p p' h]
+    | some t =>
+      simp only [layout]
+      rw [h, ih (p + t.length + 1) (p' + t.length + 1) (by
+        rw [Nat.add_assoc, Nat.add_assoc, Nat.add_mod, h, ← Nat.add_mod])]
+
+theorem layout_mod (n p : Nat) (g : GQ) : layout n (p % n) g = layout n p g :=
+  layout_congr n g _ _ (Nat.mod_mod _ _)
+
+theorem layout_notexts (n : Nat) (g : GQ) (p p' : Nat) (h : texts g = []) : layout n p g = layout n p' g := by
+  induction g with
+  | nil => rfl
+  | cons a g ih =>
+    obtain ⟨c, o⟩ := a
+    cases o with
+    | none => simp only [layout]; rw [ih (by simpa [texts] using h)]
+    | some t => simp [texts] at h
+
+theorem layout_append (n : Nat) (g1 g2 : GQ) (p : Nat) :
+    layout n p (g1 ++ g2) = layout n p g1 ++ layout n (p + (enc (texts g1)).length) g2 := by
+  induction g1 generalizing p with
+  | nil => simp [layout, texts, enc]
+  | cons a g ih =>
+    obtain ⟨c, o⟩ := a
+    cases o with
+    | none =>
+      simp only [List.cons_append, layout, ih]
+      simp [texts]
+    | some t =>
+      simp only [List.cons_append, layout, ih]
+      have : p + t.length + 1 + (enc (texts g)).length = p + (enc (texts ((c, some t) :: g))).length := by
+        simp [texts, enc]; omega
+      rw [this]
+
+/-- everything the proof tracks about a queue/heap pair -/
+structure G (cap hs : Nat) (f : Fifo Entry) (h : Heap) (st : Nat) (g : GQ) : Prop where
+  finv : Fifo.Inv f
+  fsz : f.size = cap
+  hsz : h.size = hs
+  hinv : HInv h st (texts g)
+  lay : Fifo.abs f = layout hs st g
+
+theorem G.count {cap hs : Nat} {f : Fifo Entry} {h : Heap} {st : Nat} {g : GQ} (hg : G cap hs f h st g) :
+    f.count = g.length := by
+  rw [← Lemmas.Fifo.abs_length f hg.finv, hg.lay, layout_length]
+
+theorem G.reanchor {cap hs : Nat} {f : Fifo Entry} {h h' : Heap} {st st' : Nat} {g : GQ} (hg : G cap hs f h st g)
+    (hh : HInv h' st' (texts g)) (hs' : h'.size = hs) (hst : texts g = [] ∨ st' = st) : G cap hs f h' st' g := by
+  refine ⟨hg.finv, hg.fsz, hs', hh, ?_⟩
+  rw [hg.lay]
+  rcases hst with h1 | h1
+  · exact layout_notexts _ _ _ _ h1
+  · rw [h1]
+
 end ScpiVerif.Lemmas.Heap
